@@ -172,6 +172,11 @@ def run(ctx):
                 rep["exec"] = cs["exec"]
                 viol(rep, "accepted module panics while executing (H2 assertion or other): %s" % cs["exec"]["panics"][0][:200])
                 continue
+        # cases that carry their expected verdict in the name (independent of the model)
+        if cs["mut"].endswith("#ok") and not acc:
+            viol(rep, "valid module rejected (%s): %s" % (cs["v1"], cs["mut"]))
+        if cs["mut"].endswith("#bad") and acc:
+            viol(rep, "invalid module accepted: %s" % cs["mut"])
         if (cs["v1m"] == "ok") != acc:
             viol(rep, "instantiate_with_metering and instantiate disagree on %s" % cs["id"])
         if mo.startswith("unrepresentable") or mo.startswith("runner-failed") or mo.startswith("bad-command"):
